@@ -60,12 +60,11 @@ def run(ctx):
         if len(side) != len(recs):
             raise Machinery("input side files out of step with the observations")
         cands = []
-        for i, what in rejected:
+        for i, what, parts in rejected:
             r, s = recs[i - 1], side[i - 1]
-            mut = r["id"].split("/")[-1] if r["src"] != "der" else r["id"].split("/")[0]
-            sig = {"src": r["src"], "target": r["target"], "what": what, "mut": mut}
-            cands.append({"sig": sig, "what": "%s on %s: strict accepts (%d bytes, value %s) but permissive: %s" %
-                          (r["target"], r["id"], r["s_n"], r["s_dig"], what),
+            sig = {"src": r["src"], "target": r["target"], "what": what, "parts": parts}
+            cands.append({"sig": sig, "what": "%s on %s: strict accepts (%d bytes, value %s) but permissive: %s %s" %
+                          (r["target"], r["id"], r["s_n"], r["s_dig"], what, parts),
                           "case": {"src": r["src"], "id": r["id"], "target": r["target"], "in": s["in"]}})
         ctx.candidates(binary, cands, reproduce=lambda path, body: reproduce(ctx, binary, path))
 
@@ -76,7 +75,8 @@ def run(ctx):
 def judge(ctx, recs, label=None):
     write_ndjson(ctx.specfile("perm_obs.ndjson"), recs)
     r = ctx.tlc("Trace_Perm", "Perm_judge.cfg", workers=1, timeout=3000, label=label or "Trace_Perm[%d obs]" % len(recs))
-    rej = sorted((int(m.group(1)), m.group(2)) for m in re.finditer(r'<<"REJECT", (\d+), "([^"]*)">>', r.out))
+    rej = sorted((int(m.group(1)), m.group(2), ",".join(sorted(re.findall(r'"([^"]+)"', m.group(3)))))
+                 for m in re.finditer(r'<<"REJECT", (\d+), "([^"]*)", \{([^}]*)\}>>', " ".join(r.out.split())))
     counts = {m.group(1): (int(m.group(2)), int(m.group(3)), int(m.group(4)))
               for m in re.finditer(r'<<"COUNTS", "(\w+)", (\d+), (\d+), (\d+)>>', r.out)}
     if sum(v[0] for v in counts.values()) != len(recs):
